@@ -4,6 +4,7 @@
 package core
 
 import (
+	"bytes"
 	"crypto/sha256"
 	"encoding/binary"
 	"encoding/hex"
@@ -11,6 +12,7 @@ import (
 	"fmt"
 	"math/rand"
 	"os"
+	"os/exec"
 	"path/filepath"
 	"regexp"
 	"runtime"
@@ -111,13 +113,15 @@ type Run struct {
 	inconcl  []string
 	caseRe   *regexp.Regexp
 	replayN  int
+	knownSig map[int]string
+	shardErr []string
 }
 
 // Start begins a run of check id.
 func Start(t *testing.T, id, level, rule string) *Run {
 	r := &Run{ID: id, Level: level, Rule: rule, MinDistinct: 2, t: t, start: time.Now(),
 		distinct: map[string]struct{}{}, counters: map[string]int64{}, extra: map[string]any{},
-		knownHit: map[int]int{}, violSigs: map[string]int{}}
+		knownHit: map[int]int{}, violSigs: map[string]int{}, knownSig: map[int]string{}}
 	if bz, err := os.ReadFile(filepath.Join(Root(), "known_findings.json")); err == nil {
 		var kf knownFile
 		if err := json.Unmarshal(bz, &kf); err != nil {
@@ -134,7 +138,9 @@ func Start(t *testing.T, id, level, rule string) *Run {
 	if c := os.Getenv("VERIF_CASE"); c != "" {
 		r.caseRe = regexp.MustCompile(c)
 	}
-	fmt.Printf("CHECK property=%s tier=%s seed=%d workers=%d\n", id, Tier(), Seed(), Workers())
+	if _, _, child := shardEnv(); !child {
+		fmt.Printf("CHECK property=%s tier=%s seed=%d workers=%d\n", id, Tier(), Seed(), Workers())
+	}
 	return r
 }
 
@@ -206,7 +212,10 @@ func (r *Run) Violation(sig, caseName string, witness any) bool {
 	for i, k := range r.known {
 		if k.re.MatchString(sig) {
 			if r.knownHit[i] == 0 {
-				fmt.Printf("KNOWN-FINDING: property=%s %s (first witness: %s)\n", r.ID, k.What, sig)
+				r.knownSig[i] = sig
+				if _, _, child := shardEnv(); !child {
+					fmt.Printf("KNOWN-FINDING: property=%s %s (first witness: %s)\n", r.ID, k.What, sig)
+				}
 			}
 			r.knownHit[i]++
 			return true
@@ -221,7 +230,11 @@ func (r *Run) Violation(sig, caseName string, witness any) bool {
 	dir := filepath.Join(Root(), "evidence", "replay", r.ID)
 	_ = os.MkdirAll(dir, 0o755)
 	r.replayN++
-	path := filepath.Join(dir, fmt.Sprintf("%s-seed%d-%d.json", Tier(), Seed(), r.replayN))
+	shard := ""
+	if k, _, ok := shardEnv(); ok {
+		shard = fmt.Sprintf("s%d-", k)
+	}
+	path := filepath.Join(dir, fmt.Sprintf("%s-seed%d-%s%d.json", Tier(), Seed(), shard, r.replayN))
 	bz, _ := json.MarshalIndent(map[string]any{
 		"property": r.ID, "tier": Tier(), "seed": Seed(), "case": caseName, "signature": sig, "witness": witness,
 	}, "", " ")
@@ -234,10 +247,145 @@ func (r *Run) Violation(sig, caseName string, witness any) bool {
 // Violations returns the number of unlisted violations so far.
 func (r *Run) Violations() int { r.mu.Lock(); defer r.mu.Unlock(); return r.viol }
 
+// partial is what a shard child hands back to its parent.
+type partial struct {
+	Evals     int64            `json:"evals"`
+	Distinct  []string         `json:"distinct"`
+	Counters  map[string]int64 `json:"counters"`
+	Samples   []any            `json:"samples"`
+	Viol      int              `json:"viol"`
+	ViolSigs  map[string]int   `json:"viol_sigs"`
+	KnownHits map[int]int      `json:"known_hits"`
+	KnownSigs map[int]string   `json:"known_sigs"`
+	Inconcl   []string         `json:"inconclusive"`
+	Extra     map[string]any   `json:"extra"`
+}
+
+func shardEnv() (k, w int, ok bool) {
+	if _, err := fmt.Sscanf(os.Getenv("VERIF_SHARD"), "%d/%d", &k, &w); err == nil && w > 0 {
+		return k, w, true
+	}
+	return 0, 0, false
+}
+
+// Sharded runs fn(i) for i in [0,total) in child processes (one per worker, cases i%W==k, sequentially inside a
+// child). Use it where the code under test keeps process-global state (canopy's block cache is keyed by height
+// only), so that independent cases never share a process at the same time. Children print VIOLATION lines
+// themselves; counters, distinct keys and samples are merged into the parent run.
+func (r *Run) Sharded(total int, fn func(i int)) {
+	if k, w, ok := shardEnv(); ok {
+		for i := k; i < total; i += w {
+			fn(i)
+		}
+		return
+	}
+	w := Workers()
+	if w > total {
+		w = total
+	}
+	if r.caseRe != nil {
+		w = 1 // a replay selects one case: no need to fan out
+	}
+	type res struct {
+		p   partial
+		err error
+		out string
+	}
+	results := make([]res, w)
+	var wg sync.WaitGroup
+	for k := 0; k < w; k++ {
+		wg.Add(1)
+		go func(k int) {
+			defer wg.Done()
+			f, err := os.CreateTemp("", "verif-shard-*.json")
+			if err != nil {
+				results[k].err = err
+				return
+			}
+			f.Close()
+			defer os.Remove(f.Name())
+			cmd := exec.Command(os.Args[0], "-test.run", "^TestCheck$", "-test.count=1", "-test.timeout", "12h")
+			cmd.Env = append(os.Environ(), fmt.Sprintf("VERIF_SHARD=%d/%d", k, w), "VERIF_SHARD_OUT="+f.Name())
+			var buf bytes.Buffer
+			cmd.Stdout, cmd.Stderr = &buf, &buf
+			err = cmd.Run()
+			results[k].out = buf.String()
+			bz, _ := os.ReadFile(f.Name())
+			if e := json.Unmarshal(bz, &results[k].p); e != nil {
+				results[k].err = fmt.Errorf("shard %d/%d gave no result (%v): %v", k, w, err, e)
+			} else if err != nil {
+				// the child wrote its partial result but still failed: a t.Fatal in the harness or a crash after the cases
+				lines := strings.Split(strings.TrimSpace(buf.String()), "\n")
+				if len(lines) > 25 {
+					lines = lines[len(lines)-25:]
+				}
+				results[k].err = fmt.Errorf("shard %d/%d exited with %v:\n%s", k, w, err, strings.Join(lines, "\n"))
+			}
+		}(k)
+	}
+	wg.Wait()
+	r.mu.Lock()
+	defer r.mu.Unlock()
+	for k, x := range results {
+		// pass through what the child printed that matters
+		for _, line := range strings.Split(x.out, "\n") {
+			if strings.HasPrefix(line, "VIOLATION ") || strings.HasPrefix(line, "DEBUG") || strings.HasPrefix(line, "  signature:") || strings.HasPrefix(line, "panic:") ||
+				strings.HasPrefix(line, "fatal error:") || strings.Contains(line, "github.com/canopy-network/canopy/") || strings.HasPrefix(line, "    ") {
+				fmt.Println(line)
+			}
+		}
+		if x.err != nil {
+			fmt.Printf("shard %d failed: %v\n", k, x.err)
+			r.shardErr = append(r.shardErr, x.err.Error())
+			continue
+		}
+		r.evals += x.p.Evals
+		for _, d := range x.p.Distinct {
+			r.distinct[d] = struct{}{}
+		}
+		for c, n := range x.p.Counters {
+			r.counters[c] += n
+		}
+		for _, sm := range x.p.Samples {
+			if len(r.samples) < 8 {
+				r.samples = append(r.samples, sm)
+			}
+		}
+		r.viol += x.p.Viol
+		for sg, n := range x.p.ViolSigs {
+			r.violSigs[sg] += n
+		}
+		for i, n := range x.p.KnownHits {
+			if r.knownHit[i] == 0 && i < len(r.known) {
+				fmt.Printf("KNOWN-FINDING: property=%s %s (first witness: %s)\n", r.ID, r.known[i].What, x.p.KnownSigs[i])
+			}
+			r.knownHit[i] += n
+		}
+		r.inconcl = append(r.inconcl, x.p.Inconcl...)
+		for ek, ev := range x.p.Extra {
+			r.extra[ek] = ev
+		}
+	}
+}
+
 // Finish writes the evidence file and sets the verdict.
 func (r *Run) Finish() {
 	r.mu.Lock()
 	defer r.mu.Unlock()
+	if _, _, ok := shardEnv(); ok {
+		p := partial{Evals: r.evals, Counters: r.counters, Samples: r.samples, Viol: r.viol, ViolSigs: r.violSigs, KnownHits: r.knownHit, KnownSigs: r.knownSig, Inconcl: r.inconcl, Extra: r.extra}
+		for d := range r.distinct {
+			p.Distinct = append(p.Distinct, d)
+		}
+		bz, _ := json.Marshal(p)
+		_ = os.WriteFile(os.Getenv("VERIF_SHARD_OUT"), bz, 0o644)
+		return
+	}
+	if len(r.shardErr) > 0 {
+		fmt.Printf("ERROR property=%s shard failures: %v\n", r.ID, r.shardErr)
+		r.t.Fail()
+		return
+	}
 	cov := map[string]any{
 		"evaluations":         r.evals,
 		"distinct_nontrivial": len(r.distinct),
